@@ -517,3 +517,194 @@ Proof.
   intros F lb1 lb2 ls sl m nd p v H. rewrite !tree_slot_is_spec. apply spec_slot_ext_on.
   intros f _ q x. cbn [leaf_of]. destruct (ls f) eqn:E; [reflexivity|]. unfold basic_leaf. rewrite (H f x E). reflexivity.
 Qed.
+
+(* ---------------------------------------------------------------------------------------------- *)
+(* noninterference: two states that differ only in the values of sensitive leaves -- and there only in  *)
+(* ways that keep truthiness and text length -- render to the same masked tree                        *)
+(* ---------------------------------------------------------------------------------------------- *)
+Section NI.
+  Variable F : Type.
+  Variable lto_basic : F -> pyval -> res pyval.
+  Variable lsensitive : F -> bool.
+  Variable py_strlen : pyval -> option nat.
+  Notation tree_slot := (Config.tree_slot F lto_basic lsensitive py_strlen).
+
+  Inductive low_eq : node F -> val -> val -> Prop :=
+  | le_pub : forall f x, lsensitive f = false -> low_eq (NLeaf f) (VLeaf x) (VLeaf x)
+  | le_sec : forall f x y, lsensitive f = true -> py_falsy x = py_falsy y -> py_strlen x = py_strlen y ->
+                           low_eq (NLeaf f) (VLeaf x) (VLeaf y)
+  | le_sub : forall dy vs fs c1 c2, low_eq_cfg fs c1 c2 -> low_eq (NSub dy vs fs) (VCfg c1) (VCfg c2)
+  | le_none : forall rq vs fs, low_eq (NCfgList rq vs fs) (VLeaf PNone) (VLeaf PNone)
+  | le_list : forall rq vs fs l1 l2, low_eq_items fs l1 l2 -> low_eq (NCfgList rq vs fs) (VList l1) (VList l2)
+  with low_eq_cfg : list (str * node F) -> cfg -> cfg -> Prop :=
+  | lec : forall fs i1 i2 d1 d2 df1 df2 dy1 dy2,
+      dyn_items d1 dy1 = dyn_items d2 dy2 ->
+      (forall k nd, In (k, nd) fs ->
+         (dget k d1 = None /\ dget k d2 = None)
+         \/ (exists a b, dget k d1 = Some a /\ dget k d2 = Some b /\ low_eq nd a b)) ->
+      low_eq_cfg fs (Cfg i1 d1 df1 dy1) (Cfg i2 d2 df2 dy2)
+  with low_eq_items : list (str * node F) -> list cfg -> list cfg -> Prop :=
+  | lei_nil : forall fs, low_eq_items fs [] []
+  | lei_cons : forall fs c1 c2 l1 l2, low_eq_cfg fs c1 c2 -> low_eq_items fs l1 l2 -> low_eq_items fs (c1 :: l1) (c2 :: l2).
+
+  Lemma render_fields_two : forall (s : node F -> str -> val -> res pyval) pre d1 d2 fs,
+    (forall k a, In (k, a) fs ->
+       (dget k d1 = None /\ dget k d2 = None)
+       \/ (exists v1 v2, dget k d1 = Some v1 /\ dget k d2 = Some v2 /\ forall p, s a p v1 = s a p v2)) ->
+    render_fields s pre d1 fs = render_fields s pre d2 fs.
+  Proof.
+    intros s pre d1 d2. induction fs as [|[k a] fs IH]; intro H; [reflexivity|]. cbn [render_fields].
+    rewrite IH by (intros k0 a0 Hin; apply (H k0 a0); right; exact Hin).
+    destruct (H k a (or_introl eq_refl)) as [[-> ->]|[v1 [v2 [-> [-> E]]]]]; [reflexivity|]. rewrite E. reflexivity.
+  Qed.
+
+  Lemma render_items_two : forall (one : str -> cfg -> res pyval) fs p l1 l2,
+    low_eq_items fs l1 l2 -> (forall c1 c2 q, low_eq_cfg fs c1 c2 -> one q c1 = one q c2) ->
+    forall i, render_items one p l1 i = render_items one p l2 i.
+  Proof.
+    intros one fs p l1 l2 H. induction H as [|fs c1 c2 l1 l2 Hc Hl IH]; intros Ho i; [reflexivity|].
+    cbn [render_items]. rewrite (Ho c1 c2 _ Hc), IH by exact Ho. reflexivity.
+  Qed.
+
+  Lemma masked_low_eq_n : forall m n nd p v1 v2, (nsize F nd <= n)%nat -> low_eq nd v1 v2 ->
+    tree_slot (Some m) nd p v1 = tree_slot (Some m) nd p v2.
+  Proof.
+    intros m. induction n as [|n IH]; intros nd p v1 v2 Hn H.
+    - destruct nd; cbn [nsize] in Hn; lia.
+    - assert (Hcfg : forall fs, (fsize F fs <= n)%nat -> forall c1 c2 q, low_eq_cfg fs c1 c2 ->
+                render_cfg (fields_of F lto_basic lsensitive py_strlen (Some m) fs) q c1
+                = render_cfg (fields_of F lto_basic lsensitive py_strlen (Some m) fs) q c2).
+      { intros fs Hfs c1 c2 q Hc. inversion Hc as [fs0 i1 i2 d1 d2 df1 df2 dy1 dy2 Hdy Hf]; subst.
+        cbn [render_cfg]. unfold fields_of. rewrite Hdy.
+        rewrite (render_fields_two (tree_slot (Some m)) q d1 d2 fs); [reflexivity|].
+        intros k a Hin. destruct (Hf k a Hin) as [Hnone|[a1 [a2 [H1 [H2 Hl]]]]]; [left; exact Hnone|].
+        right. exists a1, a2. repeat split; auto. intro p0. apply IH; [|exact Hl].
+        pose proof (fsize_in F _ _ _ Hin). lia. }
+      inversion H as [f x Hs|f x y Hs Hf Hl|dy vs fs c1 c2 Hc|rq vs fs|rq vs fs l1 l2 Hi]; subst.
+      + reflexivity.
+      + rewrite !tree_slot_leaf. cbn [leaf_of]. rewrite Hs. apply mask_leaf_noninterference; assumption.
+      + rewrite !tree_slot_unfold_sub. rewrite nsize_sub in Hn. apply Hcfg; [lia | exact Hc].
+      + reflexivity.
+      + rewrite !tree_slot_unfold_list. rewrite nsize_cfglist in Hn. f_equal.
+        apply (render_items_two _ fs p l1 l2 Hi). intros c1 c2 q Hc. apply Hcfg; [lia | exact Hc].
+  Qed.
+
+  Theorem masked_noninterference : forall m nd p v1 v2, low_eq nd v1 v2 ->
+    tree_slot (Some m) nd p v1 = tree_slot (Some m) nd p v2.
+  Proof. intros. eapply masked_low_eq_n; eauto. Qed.
+
+  Theorem masked_tree_noninterference : forall m fs c1 c2, low_eq_cfg fs c1 c2 ->
+    to_tree F lto_basic lsensitive py_strlen (Some m) fs c1 = to_tree F lto_basic lsensitive py_strlen (Some m) fs c2.
+  Proof. intros. unfold to_tree. apply masked_noninterference. constructor. assumption. Qed.
+End NI.
+
+(* ---------------------------------------------------------------------------------------------- *)
+(* non-vacuity: the concrete leaf instance of ConfigInst.v, evaluated                              *)
+(* ---------------------------------------------------------------------------------------------- *)
+Section Examples.
+  Open Scope string_scope.
+  Let sleaf (sens : bool) : leaf :=
+    {| l_kind := LStr None None false false; l_required := false; l_default := PNone; l_callable := false; l_sensitive := sens |}.
+  Let ileaf (sens : bool) : leaf :=
+    {| l_kind := LInt None None; l_required := false; l_default := PInt 7; l_callable := false; l_sensitive := sens |}.
+  Let item_fs : list (str * inode) := [(sa "pw", NLeaf (sleaf true)); (sa "n", NLeaf (ileaf false))].
+  Let ex_fs : list (str * inode) :=
+    [(sa "pw", NLeaf (sleaf true)); (sa "n", NLeaf (ileaf false)); (sa "pin", NLeaf (ileaf true));
+     (sa "sub", NSub false [] [(sa "tok", NLeaf (sleaf true)); (sa "host", NLeaf (sleaf false))]);
+     (sa "items", NCfgList false [] item_fs)].
+  Let ex_ops : list (list pstep * cop) :=
+    [([], CSet (sa "pw") (PStr (sa "hunter22")));
+     ([PKey (sa "sub")], CSet (sa "tok") (PStr (sa "abc")));
+     ([PKey (sa "sub")], CSet (sa "host") (PStr (sa "example.org")));
+     ([], CSet (sa "items") (PList 0 [PDict 0 [(PStr (sa "pw"), PStr (sa "s3cret")); (PStr (sa "n"), PInt 1)];
+                                      PDict 0 [(PStr (sa "pw"), PStr (sa ""))]]))].
+  Let ex_case : cocase := ([], false, [], ex_fs, [], ex_ops).
+  Let plain : pyval :=
+    PDict 0 [(PStr (sa "pw"), PStr (sa "hunter22")); (PStr (sa "n"), PInt 7); (PStr (sa "pin"), PInt 7);
+             (PStr (sa "sub"), PDict 0 [(PStr (sa "tok"), PStr (sa "abc")); (PStr (sa "host"), PStr (sa "example.org"))]);
+             (PStr (sa "items"), PList 0 [PDict 0 [(PStr (sa "pw"), PStr (sa "s3cret")); (PStr (sa "n"), PInt 1)];
+                                          PDict 0 [(PStr (sa "pw"), PStr (sa "")); (PStr (sa "n"), PInt 7)]])].
+  Let masked (a b c d : pyval) : pyval :=
+    PDict 0 [(PStr (sa "pw"), a); (PStr (sa "n"), PInt 7); (PStr (sa "pin"), b);
+             (PStr (sa "sub"), PDict 0 [(PStr (sa "tok"), c); (PStr (sa "host"), PStr (sa "example.org"))]);
+             (PStr (sa "items"), PList 0 [PDict 0 [(PStr (sa "pw"), d); (PStr (sa "n"), PInt 1)];
+                                          PDict 0 [(PStr (sa "pw"), PNone); (PStr (sa "n"), PInt 7)]])].
+
+  (* sensitive leaf at the root, in a sub-configuration, in list items (one of them empty); one-character mask *)
+  Example mask_star : run_totree (ex_case, Some (sa "*")) =
+    PTuple [o_res (Ok plain);
+            o_res (Ok (masked (PStr (sa "********")) (PStr (sa "*")) (PStr (sa "***")) (PStr (sa "******"))))].
+  Proof. vm_compute. reflexivity. Qed.
+
+  Example mask_long : run_totree (ex_case, Some (sa "[hidden]")) =
+    PTuple [o_res (Ok plain);
+            o_res (Ok (masked (PStr (sa "[hidden]")) (PStr (sa "[hidden]")) (PStr (sa "[hidden]")) (PStr (sa "[hidden]"))))].
+  Proof. vm_compute. reflexivity. Qed.
+
+  Example mask_empty : run_totree (ex_case, Some (sa "")) =
+    PTuple [o_res (Ok plain); o_res (Ok (masked (PStr []) (PStr []) (PStr []) (PStr [])))].
+  Proof. vm_compute. reflexivity. Qed.
+
+  Example mask_absent : run_totree (ex_case, None) = PTuple [o_res (Ok plain); o_res (Ok plain)].
+  Proof. vm_compute. reflexivity. Qed.
+
+  (* the hypotheses of sensitive_position_masked are satisfiable: a sensitive leaf inside a list item *)
+  Let ex_cfg : cfg :=
+    Cfg 0 [(sa "pw", VLeaf (PStr (sa "hunter22")));
+           (sa "items", VList [Cfg 1 [(sa "pw", VLeaf (PStr (sa "s3cret"))); (sa "n", VLeaf (PInt 1))] [] []])] [] [].
+  Example position_in_list_item :
+    leaf_at ex_fs ex_cfg [PItem (sa "items") 0; PKey (sa "pw")] = Some (sleaf true, PStr (sa "s3cret"))
+    /\ exists t, to_tree leaf lto_basic l_sensitive py_strlen (Some (sa "#")) ex_fs ex_cfg = Ok t
+                 /\ out_at t [PItem (sa "items") 0; PKey (sa "pw")] = Some (PStr (sa "######")).
+  Proof. split; [vm_compute; reflexivity|]. eexists. split; vm_compute; reflexivity. Qed.
+
+  (* the hypothesis of nonsensitive_identical is satisfiable *)
+  Example no_sensitive_leaf : forall f,
+    leaf_in (NSub false [] [(sa "n", NLeaf (ileaf false)); (sa "sub", NSub false [] [(sa "host", NLeaf (sleaf false))])]) f ->
+    l_sensitive f = false.
+  Proof.
+    intros f H. inversion H as [|dy vs fs k nd f0 Hin Hl|]; subst.
+    destruct Hin as [E|[E|[]]]; inversion E; subst.
+    - inversion Hl; subst. reflexivity.
+    - inversion Hl as [|dy vs fs k' nd' f0 Hin' Hl'|]; subst. destruct Hin' as [E'|[]]. inversion E'; subst.
+      inversion Hl'; subst. reflexivity.
+  Qed.
+
+  (* the hypothesis of masked_tree_noninterference is satisfiable, and the conclusion is not trivial: two states holding
+     different secrets (same length) in a list item render to the same masked tree but to different plain trees *)
+  Let ex_cfg' : cfg :=
+    Cfg 5 [(sa "pw", VLeaf (PStr (sa "hunter22")));
+           (sa "items", VList [Cfg 6 [(sa "pw", VLeaf (PStr (sa "abcdef"))); (sa "n", VLeaf (PInt 1))] [] []])] [] [].
+  Example secrets_differ_low_eq : low_eq_cfg leaf l_sensitive py_strlen ex_fs ex_cfg ex_cfg'
+    /\ to_tree leaf lto_basic l_sensitive py_strlen None ex_fs ex_cfg <> to_tree leaf lto_basic l_sensitive py_strlen None ex_fs ex_cfg'.
+  Proof.
+    split; [|vm_compute; discriminate].
+    constructor; [reflexivity|]. intros k nd Hin.
+    destruct Hin as [E|[E|[E|[E|[E|[]]]]]]; inversion E; subst; clear E.
+    - right. do 2 eexists. split; [vm_compute; reflexivity|]. split; [vm_compute; reflexivity|]. apply le_sec; reflexivity.
+    - left. split; reflexivity.
+    - left. split; reflexivity.
+    - left. split; reflexivity.
+    - right. do 2 eexists. split; [vm_compute; reflexivity|]. split; [vm_compute; reflexivity|].
+      apply le_list. constructor; [|constructor]. constructor; [reflexivity|]. intros k' nd' Hin'.
+      destruct Hin' as [E|[E|[]]]; inversion E; subst; clear E; right; do 2 eexists.
+      + split; [vm_compute; reflexivity|]. split; [vm_compute; reflexivity|]. apply le_sec; reflexivity.
+      + split; [vm_compute; reflexivity|]. split; [vm_compute; reflexivity|]. apply le_pub; reflexivity.
+  Qed.
+
+  (* the unrepaired rendering (finding F5: ListField.to_basic called item.to_tree() without the mask) is NOT the
+     declarative map: the theorem mask_tree tells the two apart *)
+  Fixpoint slot_f5 (mask : option str) (nd : inode) (p : str) (v : val) {struct nd} : res pyval :=
+    match nd, v with
+    | NLeaf f, VLeaf x => leaf_of leaf lto_basic l_sensitive py_strlen mask f p x
+    | NSub _ _ fs, VCfg c => render_cfg (fun pre d => render_fields (slot_f5 mask) pre d fs) p c
+    | NCfgList _ _ _, VLeaf PNone => Ok PNone
+    | NCfgList _ _ fs, VList l =>
+        list_result (render_items (render_cfg (fun pre d => render_fields (slot_f5 None) pre d fs)) p l 0)
+    | _, _ => Unmodelled
+    end.
+  Example unrepaired_list_rendering_leaks :
+    slot_f5 (Some (sa "*")) (NSub false [] ex_fs) [] (VCfg ex_cfg)
+    <> tree_slot leaf lto_basic l_sensitive py_strlen (Some (sa "*")) (NSub false [] ex_fs) [] (VCfg ex_cfg).
+  Proof. vm_compute. discriminate. Qed.
+End Examples.
